@@ -99,8 +99,11 @@ def make_msg(c):
         return {"type": "websocket.receive", "text": str(c - 100)}
     if 200 <= c < 300:
         return {"type": "websocket.receive", "bytes": str(c - 200).encode()}
-    if 300 <= c < 400:
+    if 300 <= c < 350:
         return {"type": "websocket.disconnect", "code": 1000 + (c - 300)}
+    if 350 <= c < 400:
+        # close codes outside the registered range (2999, 3499 library / 3999, 4499, 4999 private use ...)
+        return {"type": "websocket.disconnect", "code": 2999 + (c - 350) * 500}
     return {"type": type_of(c - 400)}
 
 
@@ -545,7 +548,8 @@ def small_scripts():
 
 FULL = [0, 1, 2, 3, 4, 5, 6, 12, 21, 30, 31, 32, 36, 38, 43]
 REDUCED = [0, 1, 2, 4, 6, 12, 30, 31, 32]
-WELL = [[0, 101, 202, 300], [0, 101, 300, 102], [0, 300], [0, 201, 102], [0], [0, 101, 102, 303]]
+CLOSES = list(range(300, 316)) + [350, 351, 352, 353, 354]
+WELL = [[0, 101, 352, 102], [0, 354], [0, 101, 202, 300], [0, 101, 300, 102], [0, 300], [0, 201, 102], [0], [0, 101, 102, 303]]
 
 
 def cases(rng, tier):
@@ -598,10 +602,10 @@ def cases(rng, tier):
         if kind < 0.15:
             frames = [100 + rng.randrange(0, 100) for _ in range(k)]
         if kind < 0.6:
-            script = [0] + frames + [300 + rng.randrange(0, 16)]
+            script = [0] + frames + [rng.choice(CLOSES)]
         elif kind < 0.75:
             p = rng.randrange(0, k + 1)
-            script = [0] + frames[:p] + [300 + rng.randrange(0, 16)] + frames[p:]
+            script = [0] + frames[:p] + [rng.choice(CLOSES)] + frames[p:]
         elif kind < 0.85:
             script = [0] + frames
         else:
